@@ -128,3 +128,13 @@ func (c *Canary) VerifStates() int {
 	}
 	return n
 }
+
+// VerifClose releases the descriptors of a Canary built by NewVerif that was
+// never started (a started one must stay open: its receive loop treats a
+// closed epoll descriptor as fatal).
+func (c *Canary) VerifClose() {
+	for _, fd := range c.descriptors {
+		syscall.Close(int(fd))
+	}
+	syscall.Close(c.epfd)
+}
